@@ -45,7 +45,7 @@ Lemma lift_reorder_frame a s' L :
 Proof.
   intros ((HI&Hr&HC&Hv&Hf)&Ht) -> HI' HC' Hrr Ht' Hll Hk Hd.
   assert (Hr' : rctx s' = false).
-  { unfold rr in Hrr. injection Hrr as -> _. done. }
+  { unfold rr in Hrr. injection Hrr as -> _ _. done. }
   assert (Hk' : ∀ h u, handles a !! h = Some u →
             valid s' u ∧ ∀ ρ, denv s' u ρ = denv (mgr a) u ρ).
   { intros h u Hu.
@@ -71,24 +71,26 @@ Proof.
   destruct r0 as [[]|e]; split; congruence.
 Qed.
 
-(** sifting ([order = None]): succeeds, no unreferenced node is left, the
-    table does not grow *)
+(** sifting ([order = None]) with an unbounded table: succeeds, no unreferenced
+    node is left, the table does not grow (with a bounded table a swap may be
+    refused: [run_aop_reorder_dyn] covers that outcome) *)
 Theorem run_aop_sift_dyn w a r a' :
-  AInvDT a → run_aop w (AReorder None) a = (r, a') →
+  AInvDT a → max_nodes (mgr a) = None → run_aop w (AReorder None) a = (r, a') →
   r = Ok VU ∧ ReoFrame a a' ∧ nozero (mgr a') ∧ len (mgr a') ≤ len (mgr a).
 Proof.
-  intros HA. pose proof HA as ((HI&Hr&HC&Hv&Hf)&Ht). rewrite run_aop_reorder_unfold.
+  intros HA Hmx. pose proof HA as ((HI&Hr&HC&Hv&Hf)&Ht). rewrite run_aop_reorder_unfold.
   cbn [aorder fmap option_fmap option_map].
   destruct (reorder_pub None (mgr a)) as [r0 s'] eqn:E. intros [= <- <-].
   destruct (nt_reorder_pub None _ r0 s' Ht E) as [Ht' Hne].
+  destruct (nft_reorder_pub None _ r0 s' Hmx E) as [_ Hnf].
   destruct (reorder_pub_sift _ (hledger a) r0 s' HI HC E)
-    as [->|(->&HI'&HC'&Hll&Hz&Hd&Hk&Hrr&Hle)]; [done|].
+    as [->|[->|(->&HI'&HC'&Hll&Hz&Hd&Hk&Hrr&Hle)]]; [done|done|].
   split; [done|]. split; [by apply (lift_reorder_frame a s' (hledger a))|]. done.
 Qed.
 
 (** a total order on the declared variables: succeeds and installs it *)
 Theorem run_aop_order_dyn w l a r a' :
-  AInvDT a →
+  AInvDT a → max_nodes (mgr a) = None →
   dom (list_to_map (reverse l) : gmap nat nat) = dom (vars (mgr a)) →
   (∀ v v' k, (list_to_map (reverse l) : gmap nat nat) !! v = Some k →
              (list_to_map (reverse l) : gmap nat nat) !! v' = Some k → v = v') →
@@ -97,13 +99,14 @@ Theorem run_aop_order_dyn w l a r a' :
   run_aop w (AReorder (Some l)) a = (r, a') →
   r = Ok VU ∧ ReoFrame a a' ∧ vars (mgr a') = list_to_map (reverse l).
 Proof.
-  intros HA Hdom Hinj Hb Hroots. pose proof HA as ((HI&Hr&HC&Hv&Hf)&Ht).
+  intros HA Hmx Hdom Hinj Hb Hroots. pose proof HA as ((HI&Hr&HC&Hv&Hf)&Ht).
   rewrite run_aop_reorder_unfold. cbn [aorder fmap option_fmap option_map].
   destruct (reorder_pub (Some (list_to_map (reverse l))) (mgr a)) as [r0 s'] eqn:E.
   intros [= <- <-].
   destruct (nt_reorder_pub _ _ r0 s' Ht E) as [Ht' Hne].
+  destruct (nft_reorder_pub _ _ r0 s' Hmx E) as [_ Hnf].
   destruct (reorder_pub_order _ _ (hledger a) r0 s' HI HC Hdom Hinj Hb Hroots E)
-    as [->|(->&HI'&HC'&Hll&Hvars&Hk&Hrr)]; [done|].
+    as [->|[->|(->&HI'&HC'&Hll&Hvars&Hk&Hrr)]]; [done|done|].
   split; [done|]. split; [|done].
   apply (lift_reorder_frame a s' (hledger a)); try done. by rewrite Hvars.
 Qed.
